@@ -18,6 +18,7 @@
 package vfx
 
 import (
+	"bytes"
 	"encoding/json"
 	"errors"
 	"fmt"
@@ -87,6 +88,9 @@ var ErrProg = errors.New("vfx: program failed")
 // transaction is not itself executed under the owner's name).
 const FriendMark = ":open:"
 
+// AllowForeignPara makes both drivers accept "user.p.<any title>.<driver>" names (set by C12 only).
+var AllowForeignPara bool
+
 // Friendly is the IsFriend policy of both drivers, usable by oracles.
 func Friendly(key []byte) bool { return strings.Contains(string(key), FriendMark) }
 
@@ -147,6 +151,10 @@ func (d *Driver) ExecutorOrder() int64 {
 // Allow accepts <name>, user.<name>.<x> and the parachain forms of both.
 func (d *Driver) Allow(tx *types.Transaction, index int) error {
 	if d.AllowIsSame(tx.Execer) || d.AllowIsUserDot2(tx.Execer) {
+		return nil
+	}
+	// a driver that also runs the transactions other parachains address to it (as paracross does)
+	if AllowForeignPara && bytes.HasPrefix(tx.Execer, types.ParaKey) && string(types.GetParaExecName(tx.Execer)) == d.name {
 		return nil
 	}
 	return types.ErrNotAllow
